@@ -459,7 +459,7 @@ pub fn prop() -> Prop<Case> {
     Prop {
         id: "C15",
         level: "exploration",
-        rule: "case = (options, tree, 0-4 patterns built from the tree's own names and paths: anchored/unanchored x components of {literal, *, ?..., prefix*, *suffix, [xz]rest, [!xz]rest, **}, optionally ending in '/', in a glued '**', in '/**' or in '*'); four path sets below the root must coincide: entries decoded independently from backup(exclude=E), listing of a full backup with E, paths created by restoring the full backup with E, and the model rule 'omitted iff it or an ancestor matches a pattern' (anchored = whole path, unanchored = any component-boundary suffix; one-glob-vs-one-string matching delegated to the globset crate). Non-trivial = E excludes >=1 and keeps >=1 entry and some entry is excluded only through an ancestor; distinct by case hash; plus one fixed scale probe (10 012 files, 10 entries per hunk, three name globs); since round 6: in a quarter of the cases the patterns go through Exclude::from_patterns_and_files, dealt over up to three pattern files with comment and blank lines, every other file without a final newline; in 30% the filtered backup is incremental over a version of the same tree made with other patterns; and a second probe with 3000 files in ONE index hunk where whole directories are excluded whose entries are followed by kept siblings",
+        rule: "case = (options, tree, 0-4 patterns built from the tree's own names and paths: anchored/unanchored x components of {literal, *, ?..., prefix*, *suffix, [xz]rest, [!xz]rest, **}, optionally ending in '/', in a glued '**', in '/**' or in '*'); four path sets below the root must coincide: entries decoded independently from backup(exclude=E), listing of a full backup with E, paths created by restoring the full backup with E, and the model rule 'omitted iff it or an ancestor matches a pattern' (anchored = whole path, unanchored = any component-boundary suffix; one-glob-vs-one-string matching delegated to the globset crate). Non-trivial = E excludes >=1 and keeps >=1 entry and some entry is excluded only through an ancestor; distinct by case hash; plus one fixed scale probe (10 012 files, 10 entries per hunk, three name globs); since round 6: in a quarter of the cases the patterns go through Exclude::from_patterns_and_files, dealt over up to three pattern files with comment and blank lines, every other file without a final newline; in 30% the filtered backup is incremental over a version of the same tree made with other patterns; and a second probe with 3000 files in ONE index hunk where whole directories are excluded whose entries are followed by kept siblings; since round 8 two more probes: 4200 sibling directories with content excluded by one pattern, and 30 000 long patterns that match nothing followed by the ones that matter, in pattern files of more than a megabyte each",
         assumptions: &[
             "single-pattern matching is delegated to the third-party globset crate (not conserve code); what is checked is conserve's pattern expansion, the pruning walk and the per-entry filters",
             "names contain no glob metacharacters; only patterns globset accepts are generated",
